@@ -198,6 +198,7 @@ mutual
     | .assign ts value => !ts.isEmpty && ts.all simpleTB && cleanB value
     | .augAssign t _ value => simpleTB t && cleanB value
     | .if_ test body orelse => cleanB test && simpleLB body && simpleLB orelse
+    | .for_ target iter body orelse => simpleTB target && cleanB iter && simpleLB body && simpleLB orelse
     | _ => false
   def simpleLB : List Stmt → Bool
     | [] => true
@@ -222,7 +223,9 @@ mutual
         simp only [simpleSB, Bool.and_eq_true] at h
         exact .if_ test body orelse (cleanB_sound _ h.1.1) (simpleLB_sound body h.1.2) (simpleLB_sound orelse h.2)
     | .while_ .., h => by simp [simpleSB] at h
-    | .for_ .., h => by simp [simpleSB] at h
+    | .for_ target iter body orelse, h => by
+        simp only [simpleSB, Bool.and_eq_true] at h
+        exact .for_ target iter body orelse (simpleTB_sound _ h.1.1.1) (cleanB_sound _ h.1.1.2) (simpleLB_sound body h.1.2) (simpleLB_sound orelse h.2)
     | .break_, h => by simp [simpleSB] at h
     | .continue_, h => by simp [simpleSB] at h
     | .annAssign .., h => by simp [simpleSB] at h
